@@ -10,6 +10,7 @@
    All statements are for every capacity n, every schedule tr and every state reached, without bound. *)
 From Coq Require Import List Arith.
 From Thunder Require Import Limiter.Model Limiter.Proofs Limiter.ModelMulti Limiter.ProofsMulti.
+From Thunder Require Import Limiter.ModelBatch Limiter.ProofsBatch.
 Import ListNotations.
 
 (* No token is lost or duplicated: the channel holds exactly one token per holder whose status is
@@ -149,6 +150,98 @@ Theorem running_le_limit_original_refuted :
 Proof. exact original_refuted_lemma. Qed.
 Print Assumptions running_le_limit_original_refuted.
 
+(* ---- batch.Func.Invoke under a limiter: the composition of this system with C05's (Limiter/ModelBatch.v) ----
+
+   batch.go: a caller that joins an existing group waits for it inside
+   concurrencylimiter.TemporarilyRelease(ctx, func() { <-bg.doneCh }); the creator of the group runs it without
+   touching the limiter.  The composed state is (limiter state, batch state, one link per batch caller: the holder
+   of its context and the limiter thread of its TemporarilyRelease call).  Labels: CL l (any limiter operation by
+   anyone - the arbitrary client stays), CJoin (Invoke's first mutex section, entering block() when a group was
+   found), CB l (the other sections of Invoke).  Synchronisation: the f of a batch waiter returns exactly when its
+   group is done and cannot panic; a waiter's Return follows the return of its block() call.  [L.] and [B.] are the
+   two component models; [crun true (cinit n mss) tr = Some cs]: cs is reached by the composed schedule tr from the
+   empty limiter of capacity n and the empty batch context with MaxSizes mss. *)
+
+(* Every schedule of the composition is, component by component, a schedule of each system: the explicit
+   projections [lproj] / [bproj] reach the component states.  Hence every theorem of this file holds of the
+   limiter while batches run under it, and every theorem of Props/C05.v holds of batches run under a limiter. *)
+Theorem batch_under_limiter_projects : forall fx n mss tr cs,
+  crun fx (cinit n mss) tr = Some cs ->
+  L.run fx (L.init n) (lproj fx (cinit n mss) tr) = Some (lim cs) /\
+  B.run (B.init mss) (bproj tr) = Some (bat cs).
+Proof. exact composed_projection_lemma. Qed.
+Print Assumptions batch_under_limiter_projects.
+
+(* running <= n still holds, counting batch waiters as not running: the bounds and the token accounting hold in
+   every reachable state of the composition; a caller that joined a group is, until its TemporarilyRelease call has
+   returned, inside block() on the holder of its own context (so that holder is not counted by believes_running,
+   and is not running in DESIGN's sense once the token is given up); and it waits for its own group only. *)
+Theorem batch_waiters_do_not_count_as_running : forall n mss tr cs,
+  crun true (cinit n mss) tr = Some cs ->
+  L.chan (lim cs) = L.owed (lim cs) /\ L.chan (lim cs) <= n /\
+  L.believes_running (lim cs) <= n /\ L.count L.is_acq (L.holders (lim cs)) <= n /\ L.running (lim cs) <= n /\
+  (forall ci k h t p, nth_error (links cs) ci = Some k -> k_holder k = Some h -> k_thread k = Some t ->
+     nth_error (L.threads (lim cs)) t = Some p -> p <> L.BDone ->
+     L.block_active h p = true /\ existsb (L.block_active h) (L.threads (lim cs)) = true) /\
+  (forall ci k t p, nth_error (links cs) ci = Some k -> k_thread k = Some t ->
+     nth_error (L.threads (lim cs)) t = Some p -> past_f p = true -> caller_done (bat cs) ci = true).
+Proof. exact composed_safety_lemma. Qed.
+Print Assumptions batch_waiters_do_not_count_as_running.
+
+(* No token is lost through any exit of Invoke.  Whatever a caller that joined a group returns - its value, Many's
+   error, the error for a panic in Many or for a wrong result length, the context error of a cancelled creator
+   ([r] is arbitrary) - its TemporarilyRelease call has returned before (token re-taken, or holder found released);
+   when all limiter calls have returned the channel holds exactly the unreleased holders' tokens and no holder is
+   left blocked; and at the end of a cooperative continuation the whole capacity is free and everyone has returned. *)
+Theorem no_token_lost_through_invoke : forall n mss tr cs,
+  crun true (cinit n mss) tr = Some cs ->
+  (forall ci c r k t, nth_error (B.callers (bat cs)) ci = Some c -> B.c_ret c = Some r ->
+     nth_error (links cs) ci = Some k -> k_thread k = Some t -> nth_error (L.threads (lim cs)) t = Some L.BDone) /\
+  (L.quiescent (lim cs) = true ->
+     L.chan (lim cs) = L.count L.is_acq (L.holders (lim cs)) /\
+     forall h, nth_error (L.holders (lim cs)) h <> Some L.Blk) /\
+  (cterminal cs = true ->
+     L.chan (lim cs) = 0 /\ (forall h st, nth_error (L.holders (lim cs)) h = Some st -> st = L.Rel) /\
+     forall ci c, nth_error (B.callers (bat cs)) ci = Some c -> B.c_ret c <> None).
+Proof. exact invoke_exit_lemma. Qed.
+Print Assumptions no_token_lost_through_invoke.
+
+(* Batching under a limiter cannot deadlock.  [coop cs l]: l is a step of a call already in progress (any limiter
+   operation of an existing thread, any section of an existing Invoke, Many returning anything) or the first call
+   of some holder's release function; nobody new arrives, nothing is cancelled.  With a limit of at least one,
+   from EVERY reachable state of the composition the cooperative continuation computed by [complete] is a schedule
+   ([coop_run], hence [crun]) of at most [mu cs] steps that ends with every limiter call returned, every Invoke
+   returned and every holder released ([cterminal]; then the channel is empty by the previous theorem).  So no
+   reachable state has waiters that wait for each other: a waiter of a group waits for the group's creator, which
+   needs no token; a goroutine that waits for room in the channel waits for holders whose owners can release. *)
+Theorem batch_under_limiter_cannot_deadlock : forall n mss tr cs,
+  1 <= n -> crun true (cinit n mss) tr = Some cs ->
+  exists tr' cs', coop_run cs tr' = Some cs' /\ length tr' <= mu cs /\ cterminal cs' = true /\
+                  (tr', cs') = complete (mu cs) cs.
+Proof. exact deadlock_free_lemma. Qed.
+Print Assumptions batch_under_limiter_cannot_deadlock.
+
+(* Local form: a reachable state that is not over is not stuck - some call in progress (or a first release) has an
+   enabled step, and every such step decreases the measure [mu] (so the continuation cannot run forever either). *)
+Theorem no_reachable_state_is_stuck : forall n mss tr cs,
+  1 <= n -> crun true (cinit n mss) tr = Some cs -> cterminal cs = false ->
+  exists l cs', coop cs l = true /\ cstep true cs l = Some cs' /\ mu cs' < mu cs.
+Proof. exact no_stuck_state_lemma. Qed.
+Print Assumptions no_reachable_state_is_stuck.
+
+(* C05's statement about return values, of batches run under a limiter (composed, not by reference): a caller that
+   returned got element [index] of what Many returned for exactly its group's arguments, or the group's error. *)
+Theorem each_caller_gets_its_result_under_a_limiter : forall n mss tr cs ci cl r,
+  crun true (cinit n mss) tr = Some cs -> nth_error (B.callers (bat cs)) ci = Some cl -> B.c_ret cl = Some r ->
+  exists g, nth_error (B.groups (bat cs)) (B.c_gid cl) = Some g /\ B.g_done g = true /\
+            nth_error (B.g_args g) (B.c_index cl) = Some ci /\
+            ((exists e, B.g_err g = Some e /\ r = B.RErr e) \/
+             (B.g_err g = None /\ B.g_many g = Some (B.g_args g) /\
+              exists rs v, B.g_res g = Some rs /\ length rs = length (B.g_args g) /\
+                           nth_error rs (B.c_index cl) = Some v /\ r = B.RVal v)).
+Proof. exact composed_return_value_lemma. Qed.
+Print Assumptions each_caller_gets_its_result_under_a_limiter.
+
 (* ---- the hypotheses are satisfiable by non-trivial states ---- *)
 
 (* limit 2: two holders acquired; one inside TemporarilyRelease with its token given up and its release
@@ -207,4 +300,47 @@ Example ex_nested_limiters :
          (0, LNewAcquire true false); (0, LAcqSend 2);
          (1, LNewRelease 0); (1, LRelSwap 2); (1, LRelRecv 2) ])
   = Some [(1, 1, 1, [Blk; Acq]); (2, 1, 1, [Rel; Acq])].
+Proof. vm_compute. reflexivity. Qed.
+
+(* batch.Invoke under a limiter of size 1.  G0 acquires (holder 0); G1 and G2 wait in Acquire.  G0 runs a batch of
+   its own and releases; G1 acquires (holder 1) and creates group 1; a sibling goroutine S sharing G1's context
+   joins group 1 and gives G1's token up while it waits; G2 acquires the freed slot (holder 2), joins too and gives
+   its own token up.  Mid-way: both waiters have given their tokens up, the channel is empty although three holders
+   exist, nobody believes it runs, never more than one holder acquired. *)
+Example ex_composed_trace : list clabel :=
+  [ CL (LNewAcquire true false); CL (LAcqSend 0); CL (LNewAcquire true false); CL (LNewAcquire true false);
+    CJoin 0 7 0 false (Some 0); CB (B.LWake 0 B.CInterval); CB (B.LUnpublish 0); CB (B.LRun 0 (B.ORes [70]));
+    CB (B.LDone 0); CB (B.LReturn 0); CL (LNewRelease 0); CL (LRelSwap 3); CL (LRelRecv 3);
+    CL (LAcqSend 1); CJoin 0 8 0 false (Some 1); CJoin 0 9 0 false (Some 1); CL (LBlkCas 4); CL (LBlkRecv 4);
+    CL (LAcqSend 2); CJoin 0 10 0 false (Some 2); CL (LBlkCas 5); CL (LBlkRecv 5) ].
+Example ex_composed_reachable :
+  option_map (fun cs => (L.chan (lim cs), L.holders (lim cs), L.believes_running (lim cs), map B.g_args (B.groups (bat cs)),
+                         map k_thread (links cs), cterminal cs))
+             (crun true (cinit 1 [0]) ex_composed_trace)
+  = Some (0, [Rel; Blk; Blk], 0, [[0]; [1; 2; 3]], [None; None; Some 4; Some 5], false).
+Proof. vm_compute. reflexivity. Qed.
+
+(* a waiter's f cannot return before its group is done, nor panic; its Return cannot precede the end of block() *)
+Example ex_composed_not_enabled :
+  crun true (cinit 1 [0]) (ex_composed_trace ++ [CL (LFRet 4)]) = None /\
+  crun true (cinit 1 [0]) (ex_composed_trace ++ [CL (LFPanic 4)]) = None /\
+  crun true (cinit 1 [0]) (ex_composed_trace ++ [CB (B.LCtxCancel 1); CB (B.LWake 1 B.CCtxDone); CB (B.LUnpublish 1);
+                                                 CB (B.LCancel 1); CB (B.LDone 1); CL (LFRet 4); CB (B.LReturn 2)]) = None.
+Proof. vm_compute. repeat split; reflexivity. Qed.
+
+(* the cooperative continuation from that state, computed by [complete]: the creator wakes, Many fails, both
+   waiters re-take a token one after the other, everyone returns, everything is released: channel empty *)
+Example ex_composed_completes :
+  option_map (fun cs => let '(tr', e) := complete (mu cs) cs in
+                        (Nat.leb (length tr') (mu cs), cterminal e, L.chan (lim e), L.holders (lim e),
+                         map B.c_ret (B.callers (bat e))))
+             (crun true (cinit 1 [0]) ex_composed_trace)
+  = Some (true, true, 0, [Rel; Rel; Rel],
+          [Some (B.RVal 70); Some (B.RErr B.EUser); Some (B.RErr B.EUser); Some (B.RErr B.EUser)]).
+Proof. vm_compute. reflexivity. Qed.
+
+(* with limit 0 the hypothesis 1 <= n is needed: an Acquire waits for ever, no cooperative step is enabled *)
+Example ex_limit_zero_is_stuck :
+  option_map (fun cs => (cterminal cs, find_step cs)) (crun true (cinit 0 []) [CL (LNewAcquire true false)])
+  = Some (false, None).
 Proof. vm_compute. reflexivity. Qed.
